@@ -133,7 +133,9 @@ impl Property for TxLocalProp {
     }
 
     fn init(&self, dir: PathBuf) -> Result<TWorld, Violation> {
-        let mut w = World::new(dir, Cfg { kind: self.kind, ..Cfg::default2() })?;
+        // keyspace z exists but has never seen a committed write (shortcuts based on "the keyspace is empty" must still
+        // see the transaction's own writes)
+        let mut w = World::new(dir, Cfg { kind: self.kind, nks: 3, ..Cfg::default2() })?;
         for o in ["ins x.a=1", "ins x.b=2", "ins y.a=1", "rotate x", "step WorkerMessage:Flush", "ins x.b=1"] {
             w.apply(&Op::parse(o).unwrap())?;
         }
@@ -141,12 +143,12 @@ impl Property for TxLocalProp {
         let e = |x: fjall::Error| Violation::new("op_error", format!("{x:?}"));
         let tx = match w.db.as_ref().expect("db") {
             Db::Sw(d) => {
-                let hs = vec![d.keyspace("x", KeyspaceCreateOptions::default).map_err(e)?, d.keyspace("y", KeyspaceCreateOptions::default).map_err(e)?];
+                let hs = vec![d.keyspace("x", KeyspaceCreateOptions::default).map_err(e)?, d.keyspace("y", KeyspaceCreateOptions::default).map_err(e)?, d.keyspace("z", KeyspaceCreateOptions::default).map_err(e)?];
                 let tx = d.write_tx();
                 Tx::Sw(unsafe { std::mem::transmute::<SingleWriterWriteTx<'_>, SingleWriterWriteTx<'static>>(tx) }, hs)
             }
             Db::Occ(d) => {
-                let hs = vec![d.keyspace("x", KeyspaceCreateOptions::default).map_err(e)?, d.keyspace("y", KeyspaceCreateOptions::default).map_err(e)?];
+                let hs = vec![d.keyspace("x", KeyspaceCreateOptions::default).map_err(e)?, d.keyspace("y", KeyspaceCreateOptions::default).map_err(e)?, d.keyspace("z", KeyspaceCreateOptions::default).map_err(e)?];
                 Tx::Occ(d.write_tx().map_err(e)?, hs)
             }
             Db::Plain(_) => return Err(Violation::new("harness", "plain db")),
@@ -300,6 +302,8 @@ fn alphabet(full: bool) -> Vec<TOp> {
         TOp::UpdateFetch(0, 0, 1),
         TOp::UpdateFetch(1, 0, 2),
         TOp::UpdateFetch(0, 2, 0),
+        TOp::Ins(2, 0, 6),
+        TOp::Rem(2, 0),
     ];
     if full {
         v.extend([TOp::Rem(1, 0), TOp::Ins(0, 2, 5), TOp::FetchUpdate(0, 3, 1), TOp::FetchUpdate(0, 0, 0), TOp::UpdateFetch(0, 3, 2), TOp::Take(1, 0)]);
